@@ -79,6 +79,7 @@ def machine : Machine Unit Unit where
              | some m => if m.ty ≥ 4 then ((), "err:keytype") else ((), "oracle-missing"))
           | some v => ((), showKeyRes (decodeKeyProto (fun _ _ => v) bs))
         | _, _ => ((), "bad-op")
+      else if which = "rawdec" then ((), "-")
       else if which = "privkey" then
         -- h = key type, o = encoding (or `unsupported`)
         match h.toNat? with
@@ -138,6 +139,11 @@ def machine : Machine Unit Unit where
           else if r.startsWith "err:" then ((), "ok")
           else ((), "FAIL:unparsable")
         | _, _ => ((), "FAIL:unparsable")
+      else if which = "rawdec" then
+        ((), match outs with
+          | ["ok"] => "ok"
+          | ["err"] => "ok"
+          | _ => "FAIL:decode_panicked")
       else if which = "privkey" then
         ((), match h, outs with
           | "0", ["unsupported", "-"] => "ok"
